@@ -57,6 +57,13 @@ CHECKS.update({
    note="Exported API only; goroutine interleavings inside one block handler are the runtime's; three genuine findings were repaired in /repo (fix: commits 1eaf562, f399f77, 1c24e77).", ref="§4 C18"),
 })
 
+CHECKS.update({
+ "C19": dict(cat="exploration", engine="grid (in-harness, 16 worker subprocesses)",
+   technique="exhaustive bounded enumeration of pathfinding queries on the real findPath+newRoute, each returned route judged by an independent math/big validator and per hop by the real htlcswitch CheckHtlcForward",
+   text="All <=4/5-channel multigraphs on 4 nodes x a policy palette, fee lattices on chain/parallel/self-payment shapes, hints, blinded tails and onion-size sweeps are enumerated; restriction and +-1 boundary probes are derived mechanically from every returned route, and every route is validated against the statement in unbounded integers.",
+   note="Soundness only (optimality not judged); mission control replaced by a constant probability; local-channel usability judged by the bandwidth hint as lnd documents; one genuine finding repaired in /repo (fix: bb5e6cd, blinded path htlc_maximum).", ref="§4 C19"),
+})
+
 NOT_YET = "harness not built yet in this round (planned, see DESIGN.md §4)"
 
 def main():
